@@ -10,7 +10,7 @@ from . import treecheck
 
 ID = 'C06'
 LEVEL = 'model_checking'
-RULE = ('(i) every clause body tree with <= N operators from , ; -> \\+ over the 8 leaves {true fail ! z '
+RULE = ('(viii) every body with 3 operators over the leaves {true, m(Vi)} (thorough: {true, m, z}) that contains true and one of ; -> \\+; ' '(i) every clause body tree with <= N operators from , ; -> \\+ over the 8 leaves {true fail ! z '
         'o(Vi) m(Vi) m(V1) k(Vi)} that uses at least one of ; -> \\+ (cuts only in transparent positions), in '
         'the context of C05, with and without a continuation goal m(W) after the construct; (ii) every '
         'unparenthesised body l1 op1 l2 .. opk lk+1 (k <= K, ops from , ; ->, every leaf from {z o m true} '
@@ -42,6 +42,7 @@ def plan(tier):
     sh += [('locals', k, 16, 2 if tier == 'quick' else 3) for k in range(16)]
     sh += [('long', k, 16) for k in range(16)]
     sh += [('tfocus', k, 16) for k in range(16)]
+    sh += [('truefocus', k, 32, tier) for k in range(32)]
     sh += [('seq', k, 16) for k in range(16)]
     if tier != 'quick':
         sh += [('spine', k, 256, 3, tier) for k in range(256)]
@@ -69,6 +70,8 @@ def run_shard(spec):
         return run_locals(spec)
     if spec[0] == 'long':
         return run_long(spec)
+    if spec[0] == 'truefocus':
+        return run_truefocus(spec)
     if spec[0] == 'tfocus':
         return run_tfocus(spec)
     if spec[0] == 'seq':
@@ -130,6 +133,24 @@ def run_tfocus(spec):
                 if res['status'] == 'violation':
                     res['sig'] = 'test-on-condition-variable:' + res['sig']
                 account(acc, ('T', idx, vi), case, res, key='%s %r' % (bodies.show_tree(t), sorted(var.items())))
+    return acc
+
+
+def run_truefocus(spec):
+    """one operator more (3; thorough: the alphabet {true m z}) over the leaves {true, m}: every body in which
+    `true` - which changes nothing - stands somewhere around the control constructs"""
+    _, k, n, tier = spec
+    acc = Acc()
+    for idx, t in enumerate(bodies.trees(3, ['true', 'm'] if tier == 'quick' else ['true', 'm', 'z'])):
+        if idx % n != k:
+            continue
+        if select(t) is not None or not _has_leaf(t, 'true'):
+            continue
+        case = treecheck.tree_case(t, continuation=True)
+        res = case.run()
+        if res['status'] == 'violation':
+            res['sig'] = 'true-around-control-constructs:' + res['sig']
+        account(acc, ('U', idx), case, res, key='%s truefocus' % bodies.show_tree(t))
     return acc
 
 
